@@ -42,7 +42,8 @@ OUTSIDE = ["compact URL form for doubles that are not the nearest double of a de
 
 def configs(tier, seed):
     out = []
-    vs_list = [(1.0, 1.0, 1.0), (0.5, 1.0, 2.0), (2.0, 2.0, 0.5), (0.375, 1.0, 4.0), (1.0, 0.5, 0.5), (3.0, 1.0, 1.0), (0.5, 0.5, 0.5), (2.0, 1.0, 3.0)]
+    vs_list = [(1.0, 1.0, 1.0), (0.5, 1.0, 2.0), (2.0, 2.0, 0.5), (0.375, 1.0, 4.0), (1.0, 0.5, 0.5), (3.0, 1.0, 1.0), (0.5, 0.5, 0.5), (2.0, 1.0, 3.0),
+               (2.0 ** -20, 1.0, 2.0 ** -21), (2.0 ** -24, 2.0 ** -24, 2.0 ** -18), (1024.0, 0.5, 2.0 ** -30)]      # sub-nanometre / very large voxels
     if tier == "thorough":
         import itertools
         import random
@@ -276,7 +277,7 @@ def H_transform(ctx, cfg):
     M = [[(x.r if isinstance(x, SRl) else SRl.of(x).r) for x in row] for row in json_transform]
     conds = []
     for r in range(3):
-        ng = [(i[c] + z3.RealVal("1/2")) * z3.RealVal(str(res[c])) for c in range(3)]      # corner-based voxel coordinate in nm
+        ng = [(i[c] + z3.RealVal("1/2")) * z3.Q(*float(res[c]).as_integer_ratio()) for c in range(3)]      # corner-based voxel coordinate in nm
         lhs = sum(M[r][c] * ng[c] for c in range(3)) + M[r][3]
         rhs = 1000000 * (sum(A[r, c].r * i[c] for c in range(3)) + A[r, 3].r)
         conds.append(z3.simplify(lhs - rhs, som=True) == 0)
@@ -447,6 +448,8 @@ def replay(cfg, cex):
         info_s, jt, _, _ = vr.nibabel_image_to_info(img)
         M = real_np.array(jt)
         res = real_np.array(json.loads(info_s)["scales"][0]["resolution"])
+        if not real_np.allclose(res, [v * 1e6 for v in cfg["vs"]], rtol=1e-9, atol=0):
+            return True, f"resolution {res.tolist()} nm for voxel sizes {cfg['vs']} mm (affine {A[:3].tolist()})"
         for idx in ((0, 0, 0), (1, 0, 0), (0, 1, 1), (3, 2, 5)):
             ng = (real_np.array(idx) + 0.5) * res
             got = M[:3, :3] @ ng + M[:3, 3]
